@@ -474,6 +474,28 @@ def call_model(c, t, at, edge):
         return c.top_for(t)
     if name.endswith("LocalKey::with"):
         return c.top_for(t)
+    if short == "try_from" and len(args) == 1 and "TryFrom<" in name:
+        # integer TryFrom: Ok(x) exactly when x fits the target type, else Err
+        src = deref_av(av(args[0]))
+        ty = c.ft.tyof(t) or ""
+        tgt = top_of_type(ty, facts)
+        okp = variant_payload(tgt, "Ok") if tgt[0] == "e" else None
+        if src[0] == "i" and okp is not None and okp[0] == "i":
+            inner = meet(src, okp)
+            out = {}
+            if inner[0] != "b":
+                out["Ok"] = S({"0": inner})
+            if src[1] < okp[1] or src[2] > okp[2]:
+                out["Err"] = S({"0": TOP})
+            return E(out)
+        return c.top_for(t)
+    if short == "from" and len(args) == 1 and "From<" in name and "num::" in name:
+        # lossless integer widening
+        src = deref_av(av(args[0]))
+        tgt = top_of_type(c.ft.tyof(t) or "", facts)
+        if src[0] == "i" and tgt[0] == "i":
+            return meet(src, tgt)
+        return c.top_for(t)
     if short == "parse" and len(args) == 1:
         # x.to_string().parse::<int>() yields Ok(x) when x fits the target type (decimal round trip), else Err
         x = args[0]
